@@ -207,10 +207,7 @@ def r11c(ctx):
     cons = ap.calls('mdb_shard::session_directory::consolidate_shards_in_directory')
     ctx.check(bool(fl) and bool(cons) and all(ap.cfg.must_pass(c, via_blocks=fl) for c in cons), 'R11c', c16.UPLC, 'flush', ap.loc(cons[0]) if cons else '-',
               'session shard flush (awaited) dominates consolidate_shards_in_directory')
-    # the consolidated list is what is uploaded
-    sp = ap.calls('tokio::task::join_set::JoinSet::spawn')
-    ctx.check(bool(sp) and bool(cons) and any(flow.mentions(ap.arg(s, 1), lambda x: ap.rooted_at(x, cons[0])) for s in sp), 'R11c', c16.UPLC, 'spawn(si)', '-',
-              'each spawned shard task receives an element of the consolidated shard list')
+    c16.shard_upload_no_shortcut(ctx, 'R11c')
 
 
 def stores_through(a, guard):
